@@ -51,6 +51,7 @@ func C16(r *core.Run) {
 	pathParamNames(r)
 	refClosure(r)
 	methodSchemasIndependent(r)
+	hollowWrappersNotConverted(r)
 	entityPartOwnAnnotation(r) // the client takes an entity's key schema from the object annotated as its keys part: there is one
 	entityRefAgreement(r)
 	// a method without a response block returns a raw body (google.api.HttpBody): its response schema is nil
